@@ -22,8 +22,9 @@ import ast
 from sa.cfg import CFG
 from sa.model import AnalysisError, Finding, FunctionInfo, enclosing_fn, loc, src
 
-XF_METHODS = {"strip", "lstrip", "rstrip", "casefold", "lower", "upper", "title", "capitalize", "swapcase", "replace", "expandtabs", "translate",
-              "format", "center", "ljust", "rjust", "zfill", "removeprefix", "removesuffix", "encode", "decode"}
+PREFIX_KEEPING = {"rstrip", "removesuffix"}  # what is left is a prefix of the original: positions in it are positions in the original
+XF_METHODS = {"strip", "lstrip", "casefold", "lower", "upper", "title", "capitalize", "swapcase", "replace", "expandtabs", "translate",
+              "format", "center", "ljust", "rjust", "zfill", "removeprefix", "encode", "decode"}
 INDEX_METHODS = {"find", "rfind", "index", "rindex"}
 XF_FUNCS = {"builtins.str." + m for m in XF_METHODS} | {"textwrap.dedent", "textwrap.fill", "textwrap.indent", "unicodedata.normalize"}
 KEEP_FUNCS = {"builtins.str", "builtins.iter", "builtins.list", "builtins.tuple", "builtins.reversed"}
@@ -67,6 +68,12 @@ class Coord(object):
         if isinstance(e, ast.IfExp):
             return _u(self.tags(e.body, env, fi), self.tags(e.orelse, env, fi))
         if isinstance(e, ast.BinOp):
+            if isinstance(e.op, ast.Sub) and self._is_len(e.left) and self._is_len(e.right):
+                # len(s) - len(s.lstrip(..)): the number of characters stripped from the front, a position in s itself
+                a, b = e.left.args[0], e.right.args[0]
+                if isinstance(b, ast.Call) and isinstance(b.func, ast.Attribute) and b.func.attr in ("lstrip", "removeprefix") and ast.dump(b.func.value) == ast.dump(a):
+                    self.tags(a, env, fi)
+                    return frozenset(("p", t[1]) for t in self.tags(a, env, fi) if t[0] == "o")
             return _u(self.tags(e.left, env, fi), self.tags(e.right, env, fi))
         if isinstance(e, ast.BoolOp):
             return _u(*[self.tags(v, env, fi) for v in e.values])
@@ -79,6 +86,10 @@ class Coord(object):
         if isinstance(e, ast.Call):
             return self.call(e, env, fi)
         return frozenset()
+
+    @staticmethod
+    def _is_len(e):
+        return isinstance(e, ast.Call) and isinstance(e.func, ast.Name) and e.func.id == "len" and len(e.args) == 1
 
     def _xf(self, ts):
         return frozenset(("x", t[1]) if t[0] in ("o", "x") else t for t in ts if t[0] in ("o", "x", "xk"))
@@ -107,6 +118,8 @@ class Coord(object):
             if en in XF_FUNCS and argt:
                 return self._xf(argt[0])
             if en is None or not en.startswith(("os.", "ast.", "itertools.", "functools.")):
+                if f.attr in PREFIX_KEEPING and recv:
+                    return frozenset(t for t in recv if t[0] in ("o", "x", "xk"))
                 if f.attr in XF_METHODS and recv:
                     return self._xf(recv)
                 if f.attr in INDEX_METHODS and recv:
